@@ -37,7 +37,7 @@ BOUND = {k: v + "; plus: " + "list names with a dot next to their stem; a user-w
 
 LISTS = ["c", "c1", "d"]
 VARIANTS = ["plain", "filter", "rand", "randseed", "randseedref", "multi", "rank", "or_other", "shared", "search",
-            "multi_or_other", "unused", "fromrepeat", "fromrepeat-filter", "randfalse", "randfalseseed", "randfilter", "multirandfalse", "randseedexpr", "randseedexpr2", "search_rand", "search_multi", "fromrepeat-sibling"]
+            "multi_or_other", "unused", "fromrepeat", "fromrepeat-filter", "randfalse", "randfalseseed", "randfilter", "multirandfalse", "randseedexpr", "randseedexpr2", "search_rand", "search_multi", "fromrepeat-sibling", "search-after-token", "search-before-token"]
 REJECT_VARS = {"search_rand", "search_multi"}  # a search() list may not be shared with a select that is not using search()
 
 
@@ -85,6 +85,11 @@ def ext_features():
         "file-geojson": ({"type": "select_multiple_from_file f3.geojson", "name": "s3", "label": "S3"}, {"f3": "jr://file/f3.geojson"}),
         "file-csv-again": ({"type": "select_multiple_from_file f1.csv", "name": "s4", "label": "S4"}, {"f1": "jr://file-csv/f1.csv"}),
         "file-xml-clash": ({"type": "select_one_from_file f1.xml", "name": "s5", "label": "S5"}, {"f1": "jr://file/f1.xml"}),
+        "file-geojson-rand": ({"type": "select_one_from_file f7.geojson", "name": "sg1", "label": "SG1", "parameters": "randomize=true seed=3"}, {"f7": "jr://file/f7.geojson"}),
+        "file-geojson-label-only": ({"type": "select_multiple_from_file f8.geojson", "name": "sg2", "label": "SG2", "parameters": "label=nm"}, {"f8": "jr://file/f8.geojson"}),
+        "file-geojson-value-only": ({"type": "select_one_from_file f9.geojson", "name": "sg3", "label": "SG3", "parameters": "value=code", "choice_filter": "a = ${last-saved#t0}"},
+                                    {"f9": "jr://file/f9.geojson", "__last-saved": "jr://instance/last-saved"}),
+        "file-csv-rand": ({"type": "select_one_from_file f10.csv", "name": "sg4", "label": "SG4", "parameters": "randomize=true"}, {"f10": "jr://file-csv/f10.csv"}),
         "file-params-case": ({"type": "select_one_from_file f4.csv", "name": "s6", "label": "S6", "parameters": "Value=Code Label=NameEN"}, {"f4": "jr://file-csv/f4.csv"}),
         "xml-external": ({"type": "xml-external", "name": "x1"}, {"x1": "jr://file/x1.xml"}),
         "csv-external": ({"type": "csv-external", "name": "x2"}, {"x2": "jr://file-csv/x2.csv"}),
@@ -208,6 +213,10 @@ def build_lists(case):
         qs.append({"type": "select_multiple c", "name": "s2", "label": "S2", "choice_filter": "y != ''"})
     elif v == "search":
         sel["appearance"] = "search('f')"
+    elif v == "search-after-token":
+        sel["appearance"] = "minimal search('f')"
+    elif v == "search-before-token":
+        sel["appearance"] = "search('f', 'matches', 'k', 'v') quick"
     elif v in ("search_rand", "search_multi"):
         sel["appearance"] = "search('f')"
         qs.append({"type": "select_one c", "name": "s2", "label": "S2", "parameters": "randomize=true"} if v == "search_rand" else {"type": "select_multiple c", "name": "s2", "label": "S2"})
@@ -253,7 +262,7 @@ def check_lists(case, wb, out, viol):
     other_lists = set()
     if v in ("or_other", "multi_or_other"):
         other_lists.add("c")
-    searched = {"c"} if v == "search" else set()
+    searched = {"c"} if v in ("search", "search-after-token", "search-before-token") else set()
     itx = {}
     for lg, d, texts in obs.itext:
         for tid, vals in texts:
@@ -362,7 +371,7 @@ def check_lists(case, wb, out, viol):
             ok = val is not None and lab is not None and val.get("ref") == "rq" and lab.get("ref") == "rq"
         if not ok:
             viol.append((f"itemset-from-repeat:{v}", f"{[dict(i.attrib) for i in its]}"))
-    elif v == "search":
+    elif v in ("search", "search-after-token", "search-before-token"):
         items = s_el.findall(O.X + "item")
         exp = [c for c in choices if c["list_name"] == "c"]
         got = [(it.find(O.X + "value").text) for it in items]
@@ -471,7 +480,10 @@ def check_ext(case, wb, out, viol):
         el = next((e for e, tag, ref, anc in obs.body_controls() if ref and ref.endswith("/" + row["name"]) and tag in ("select", "select1")), None)
         its = el.findall(O.X + "itemset") if el is not None else []
         flt = "[a = instance('__last-saved')/data/t0]" if "last-saved" in row.get("choice_filter", "") else ""
-        ok = len(its) == 1 and norm_ws(its[0].get("nodeset") or "").replace("[ ", "[").replace(" ]", "]") == f"instance('{stem}')/root/item{flt}"
+        want_ns = f"instance('{stem}')/root/item{flt}"
+        if pm.get("randomize") == "true":
+            want_ns = f"randomize({want_ns}" + (f", {pm['seed']}" if "seed" in pm else "") + ")"
+        ok = len(its) == 1 and norm_ws(its[0].get("nodeset") or "").replace("[ ", "[").replace(" ]", "]") == want_ns
         if ok:
             v, lb = its[0].find(O.X + "value"), its[0].find(O.X + "label")
             ok = v is not None and lb is not None and v.get("ref") == want_v and lb.get("ref") == want_l
